@@ -10,6 +10,41 @@ Models: `EqsigVerif/Model/Fns.lean`; specification vocabulary: `EqsigVerif/Spec/
 namespace EqsigVerif.Props.C20
 open EqsigVerif EqsigVerif.Np EqsigVerif.Wire EqsigVerif.Model.Fns EqsigVerif.Spec.Fns EqsigVerif.Lemmas.Fns
 
+/-! ## C20.a `interp2d` -/
+
+/-- **C20.a** For strictly increasing nodes `xf` (every gap larger than the `1e-10` guard), a rectangular table `f`
+of width `w` with at least one row per node, and *every* query array `x` (inside, on a node, outside):
+`interp2d` succeeds and each output row `R` for the query `q`
+* is the clamped column-wise linear interpolation of the table (`IsClampedLerp`: one of the three cases below applies),
+* equals the first row whenever `q ≤ xf[0]`, the last node's row whenever `q ≥ xf[n-1]`,
+* equals `(1-s)·f[i] + s·f[i+1]`, `s = (q - xf[i]) / (xf[i+1] - xf[i])`, for every bracket `xf[i] ≤ q ≤ xf[i+1]`. -/
+theorem interp2d_spec (x xf : List ℚ) (f : List (List ℚ)) (w : Nat) (hne : xf ≠ []) (hg : GapNodes xf)
+    (hf : xf.length ≤ f.length) (hw : ∀ r ∈ f, r.length = w) :
+    ∃ rows, interp2d x xf f = .ok rows ∧
+      List.Forall₂ (fun q R =>
+        IsClampedLerp xf f hf q R ∧
+        (∀ h0 : 0 < xf.length, q ≤ xf[0] → R = f[0]'(by omega)) ∧
+        (∀ h0 : 0 < xf.length, xf[xf.length - 1] ≤ q → R = f[xf.length - 1]'(by omega)) ∧
+        (∀ i (hi : i + 1 < xf.length), xf[i] ≤ q → q ≤ xf[i+1] →
+          R = lerpRow ((q - xf[i]) / (xf[i+1] - xf[i])) (f[i]'(by omega)) (f[i+1]'(by omega)))) x rows := by
+  obtain ⟨rows, hr, hfa⟩ := interp2d_clamped x xf f hne hg hf
+  refine ⟨rows, hr, hfa.imp ?_⟩
+  intro q R hR
+  exact ⟨hR, fun h0 hx => clamped_low xf f hg hf w hw q R hR h0 hx,
+    fun h0 hx => clamped_high xf f hg hf w hw q R hR h0 hx,
+    fun i hi h1 h2 => clamped_mid xf f hg hf w hw q R hR i hi h1 h2⟩
+
+/-- the docstring example of `interp2d`, plus queries on a node, midway (argmin tie) and outside -/
+example : interp2d [1/2, 1, 11/5, 5/2, -1, 7, 3/2] [0, 1, 2, 3] [[0, 0, 0], [0, 1, 4], [2, 6, 2], [10, 10, 10]]
+    = .ok [[0, 1/2, 2], [0, 1, 4], [18/5, 34/5, 18/5], [6, 8, 6], [0, 0, 0], [10, 10, 10], [1, 7/2, 3]] := by
+  decide +kernel
+example : GapNodes [0, 1, 2, 3] := by
+  intro i h
+  have : i = 0 ∨ i = 1 ∨ i = 2 := by simp at h; omega
+  rcases this with rfl | rfl | rfl <;> norm_num [tol]
+/-- without the rectangular-table hypothesis the statement fails (NumPy arrays are rectangular): `zipWith` truncates -/
+example : interp2d [0] [0, 1] [[1, 2], [3]] = .ok [[1]] := by decide +kernel
+
 /-! ## C20.b `interp_left` -/
 
 /-- **C20.b** (array form). For a non-decreasing node array `x` (the domain of `np.searchsorted`), a non-empty
